@@ -296,4 +296,65 @@ example : (cycles toyOps 5 exLoopFacts (exLoop.map compileRule)).evaluated = 3 :
 example : isIntV (match Spec.field (cycles toyOps 5 exLoopFacts (exLoop.map compileRule)).final ['f', 'l'] with
   | some v => .ok v | none => .error .notFound) 20 = true := by decide
 
+/-! ## The caller's side: several `execute` calls, fact-store edits in between -/
+
+/-- **Any number of `execute` calls on one engine, the caller editing the store in between**
+(`add_value`/`add`, `set`, `set_nested`, `remove`, `clear`, or the same content in a new `Facts`
+object): call by call the engine's result is the documented cycle loop on the facts handed in. -/
+theorem calls_eq_spec (ops : FloatOps F) (n : Nat) (rs : List (SRule F)) :
+    ∀ (phs : List (List (CallerOp F))) (f : Facts F), Spec.wfCalls ops n rs f phs = true →
+      calls ops n (rs.map compileRule) f phs = Spec.calls ops n rs f phs := by
+  intro phs
+  induction phs with
+  | nil =>
+    intro f h
+    simp only [Spec.wfCalls] at h
+    simp only [calls, Spec.calls, cycles_eq_spec ops rs n f h]
+  | cons ph rest ih =>
+    intro f h
+    simp only [Spec.wfCalls, Bool.and_eq_true] at h
+    simp only [calls, Spec.calls, cycles_eq_spec ops rs n f h.1]
+    rw [ih _ h.2]
+
+/-- **A successful caller-side `set_nested` reads back** through the condition-side lookup -/
+theorem caller_setNested_reads_back (f f' : Facts F) (p : Str) (v : Val F)
+    (h : setNested f p v = some f') :
+    Spec.field (applyCaller f (.setNested p v)) p = some v := by
+  have hs := lookupNF_setField f p v
+  simp only [setField, h] at hs
+  simp only [applyCaller, h, Spec.field, hs]
+
+/-- a failed caller-side `set_nested` (missing root / link, non-object on the way) changes nothing -/
+theorem caller_setNested_err_unchanged (f : Facts F) (p : Str) (v : Val F)
+    (h : setNested f p v = none) : applyCaller f (.setNested p v) = f := by
+  simp only [applyCaller, h]
+
+/-- **After `remove(k)` every path rooted at `k` is absent** (so a condition on it reads null),
+and every other top-level fact is untouched -/
+theorem caller_remove_absent (f : Facts F) (k path : Str) (ps : List Str)
+    (h : splitDot path = k :: ps) :
+    getNested (applyCaller f (.remove k)) path = none ∧ get (applyCaller f (.remove k)) k = none ∧
+      ∀ k', k' ≠ k → get (applyCaller f (.remove k)) k' = get f k' := by
+  refine ⟨?_, ?_, ?_⟩
+  · simp only [getNested, h, applyCaller, lookupKV_removeKV_self]
+  · simp only [get, applyCaller, lookupKV_removeKV_self]
+  · intro k' hne
+    simp only [get, applyCaller, lookupKV_removeKV_ne _ _ _ hne]
+
+/-- **After `clear()` every field reads null** -/
+theorem caller_clear_reads_null (f : Facts F) (name : Str) :
+    Spec.fieldVal (applyCaller f .clear) name = .null := by
+  simp only [Spec.fieldVal, Spec.field, lookupNF, getNested, get, applyCaller]
+  cases splitDot name <;> simp [lookupKV]
+
+example : Spec.wfCalls toyOps 5 exLoop exLoopFacts
+    [[.set ['q'] (.int 45), .remove ['z']], [.setNested ['f', 'l'] (.int 0)]] = true := by decide
+example : (calls toyOps 5 (exLoop.map compileRule) exLoopFacts
+    [[.set ['q'] (.int 45), .remove ['z']], [.setNested ['f', 'l'] (.int 0)]]).map (·.fired) = [2, 2, 4] := by decide
+example : (get (applyCaller exLoopFacts (.remove ['q'])) ['q']).isNone = true := by decide
+example : (get (applyCaller exLoopFacts (.remove ['q'])) ['s', 't']).isSome = true := by decide
+example : (setNested exFacts ['o', '.', 'x'] (.int 7)).isSome = true := by decide
+example : (setNested exFacts ['q', '.', 'x'] (.int 7)).isNone = true := by decide
+example : splitDot ['o', '.', 'x'] = ['o'] :: [['x']] := by decide
+
 end C01
